@@ -2,7 +2,7 @@
 # usage: tools/sweep.sh quick|thorough "1 2 3" [checks...]  — runs checks at several seeds, prints one line per run
 TIER=${1:-quick}; SEEDS=${2:-"1 2 3 7 42"}; shift 2 2>/dev/null
 CHECKS=${*:-"C01 C02 C03 C04 C05 C06 C07 C08 C09 C10 C11 C12 C13 C14 C15 C16 C17 C18 C19 C20"}
-cd /verif
+cd "$(dirname "$0")/.." || exit 2
 for s in $SEEDS; do for c in $CHECKS; do
   out=$(VERIF_SEED=$s ./check $c $TIER 2>&1); rc=$?
   echo "seed=$s rc=$rc $(echo "$out" | tail -1 | cut -c1-160)"
